@@ -194,12 +194,34 @@ static void fill_args(Rng& r, const QueryDef& q, Op& o) {
       o.s = gen_compound_arg(r, &o.snull);
     }
   }
+  // now and then the energy is placed relative to one of the element's own absorption edges (looked up inside
+  // the op): the edge-dependent branches of the fluorescence / jump / cascade code only switch there
+  if (q.shape[0] == 'i' && strchr(q.shape, 'd') && q.cls[0] && !strcmp(q.cls[0], "Z") && r.chance(1, 10)) {
+    bool hasE = false;
+    for (int j = 0; q.shape[j]; j++) hasE = hasE || (q.cls[j] && (!strcmp(q.cls[j], "E") || !strcmp(q.cls[j], "E0")));
+    if (hasE && o.i[0] >= 1 && o.i[0] <= 100) {
+      static const double f[] = {1.0, 1.0000001, 0.9999999, 1.001, 0.999, 1.5};
+      o.i[3] = 1 + r.range(0, 8);
+      o.d[11] = f[r.below(6)];
+    }
+  }
 }
 
 const QueryDef* query_find(const char* name) {
   for (int i = 0; i < g_nqueries; i++)
     if (!strcmp(g_queries[i].name, name)) return &g_queries[i];
   return nullptr;
+}
+
+Op gen_query_op_for(Rng& r, int id, int qi) {
+  Op o;
+  o.id = id;
+  o.kind = OK_Q;
+  const QueryDef& q = g_queries[qi % g_nqueries];
+  o.fn = q.name;
+  fill_args(r, q, o);
+  o.slot = r.chance(4, 5) ? 1 : 0;
+  return o;
 }
 
 Op gen_query_op(Rng& r, int id) {
